@@ -30,6 +30,7 @@ type World struct {
 	exactConv bool
 	strictHavoc bool
 	Scratch   string
+	replayN   int
 }
 
 func loadWorld(repo, specDir, scratch string, patterns []string) (*World, error) {
